@@ -429,6 +429,13 @@ def directed_c01():
         D.append(("guard_%s_two_elseifs_then_rest" % jn, [("for", ("decl", "i", "0"), "i < n", ("inc", "i"), [Y("i + 1"), ("if", "i == 1", [jump], [("if", "g1", [E(1)], [("if", "g2", [Y("i + 100"), E(3)], None)])]), E(2), Y("i + 200")]), Y("a + 3")]))
         D.append(("guard_%s_elseif_in_block" % jn, [("for", ("decl", "i", "0"), "i < n", ("inc", "i"), [("block", [("if", "g1", [Y("i + 1"), jump], [("if", "g2", [Y("i + 100")], None)]), Y("i + 200")]), E(2)]), Y("a + 3")]))
     D.append(("guard_return_elseif_yields_then_rest", [Y("a + 1"), ("if", "g1", [E(1), ("return",)], [("if", "g2", [Y("b + 100")], None)]), Y("a + 200"), E(2)]))
+    D.append(("tagless_switch_in_loop_with_continue", [("for", ("decl", "i", "0"), "i < n", ("inc", "i"), [("switch", None, None, [("i == 0", [Y("a + 1")]), ("i > 1", [Y("i + 2"), ("continue",)])], [E(1)]), Y("i + 100")]), Y("b")]))
+    D.append(("tagless_switch_with_init_last_in_loop", [("for", ("decl", "i", "0"), "i < n", ("inc", "i"), [("switch", ("decl", "x", "i + a"), None, [("x > b", [Y("x + 1")]), ("g1", [E(1)])], None)]), Y("b")]))
+    D.append(("for_without_condition", [("for", ("decl", "i", "0"), None, ("inc", "i"), [("if", "i >= n", [("break",)], None), Y("i + 1"), ("if", "g1", [("continue",)], None), E(1)]), Y("a")]))
+    D.append(("for_without_condition_yielding_post", [("decl", "i", "0"), ("for", None, None, ("yield", "i + 100"), [("inc", "i"), ("if", "i > n", [("break",)], None), Y("i + 1")]), Y("a")]))
+    D.append(("switch_last_in_loop_no_default", [("for", ("decl", "i", "0"), "i < n", ("inc", "i"), [E(1), ("switch", None, "i & 1", [("0", [Y("i + 1")])], None)]), Y("a")]))
+    D.append(("switch_last_in_case_no_default", [("switch", None, "a & 1", [("0", [Y("a + 1"), ("switch", None, "b & 1", [("1", [Y("b + 2")])], None)])], [Y("a + 3")]), Y("b")]))
+    D.append(("switch_after_combine_no_default", [("if", "g1", [Y("a + 1")], None), ("switch", None, "b & 1", [("1", [Y("b + 2")])], None)]))
     D.append(("else_block_starts_with_trivial_if", [("if", "g1", [Y("a + 1")], [("if", "g2", [E(1)], None), Y("b + 2"), E(2)]), Y("a + 3")]))
     D.append(("else_block_trivial_if_in_loop", [("for", ("decl", "i", "0"), "i < n", ("inc", "i"), [("if", "i&1 == 0", [Y("i + 1")], [("if", "g2", [E(1)], None), E(2), Y("i + 2"), E(3)]), E(4)]), Y("a + 3")]))
     D.append(("yielding_switch_ends_loop", [("for", ("decl", "i", "0"), "i < n", ("inc", "i"), [("switch", None, "i&1", [("0", [Y("i + 1")])], None)]), Y("a + 2")]))
